@@ -1,11 +1,13 @@
 package handlers
 
 import (
+	"context"
 	"fmt"
 	"sort"
 	"strconv"
 	"sync"
 	"testing"
+	"time"
 
 	"github.com/high-moctane/mocrelay"
 	mocprom "github.com/high-moctane/mocrelay/middleware/prometheus"
@@ -232,6 +234,29 @@ func TestC19Metrics(t *testing.T) {
 		for i := 0; i < steps; i++ {
 			si := rapid.IntRange(0, ns-1).Draw(t, fmt.Sprintf("%d.sess", i))
 			lab := fmt.Sprintf("%d.", i)
+			if rapid.IntRange(0, 24).Draw(t, lab+"doa") == 0 {
+				// a session whose context is already cancelled when it is handed over
+				trace = append(trace, c19Op{Sess: -2, Kind: "DEAD-ON-ARRIVAL"})
+				dctx, dcancel := context.WithCancel(context.Background())
+				dcancel()
+				dret := make(chan error, 1)
+				go func() {
+					dret <- rig.H.ServeNostr(dctx, make(chan mocrelay.ServerMsg), make(chan mocrelay.ClientMsg))
+				}()
+				select {
+				case <-dret:
+				case <-time.After(stepTimeout):
+					failf("session-end", "a session with a cancelled context returns", "ServeNostr did not return")
+				}
+				// the downstream handler may or may not have been started for it
+				select {
+				case <-rig.Down.sessions:
+				default:
+				}
+				if why := model.compare(reg); why != "" {
+					failf("metrics-mismatch", "a session that was over before it began leaves the gauges unchanged", why)
+				}
+			}
 			if sess[si] == nil {
 				s, err := rig.Start()
 				if err != nil {
